@@ -87,6 +87,13 @@ def main():
            'manifests_when': meta.get('manifests_when'), 'tests_after': meta.get('tests_after'),
            'origin': 'sub-agent given only the property text and a scratch worktree',
            'detected': detected, 'runs': results}
+    try:
+        old = json.load(open(os.path.join(dest, 'meta.json')))
+        if old.get('runs'):
+            # the outcome with the checks as they stood before they were strengthened
+            out['earlier_runs'] = old.get('earlier_runs', []) + [old['runs']]
+    except Exception:  # noqa: BLE001
+        pass
     json.dump(out, open(os.path.join(dest, 'meta.json'), 'w'), indent=1)
     print('%s-%s detected=%s %s' % (pid, letter, detected, [(r['tier'], r['exit'], r['wall_s']) for r in results]))
     for r in results:
